@@ -51,7 +51,7 @@ _mpz_cmp_si (mpz_srcptr u, mpir_si v_digit)
     }
 
   if (usize != vsize)
-    return usize - vsize;
+    return usize > vsize ? 1 : -1;	/* the difference itself need not fit an int */
 
   if (usize == 0)
     return 0;
